@@ -26,8 +26,13 @@ SCENARIOS = ['main-edit-with-dir-override', 'dir-edit',
              'defaults-with-permissive-default-rule', 'deprecated-defaults',
              'deprecated-defaults-both-names', 'alias-edit',
              'dir-file-overrides-two', 'dir-edit-removes-override',
-             'defaults-last-one-overridden', 'dir-edit-no-overwrite']
-ENF_KW = {'dir-edit-no-overwrite': {'overwrite': False}}
+             'defaults-last-one-overridden', 'dir-edit-no-overwrite',
+             'deprecated-defaults-option-flip']
+ENF_KW = {'dir-edit-no-overwrite': {'overwrite': False},
+          'deprecated-defaults-option-flip': {'enforce_new_defaults': False}}
+# scenarios whose edit also changes an option of the live enforcer's conf
+# (old policy: the option as in ENF_KW; new policy: the flipped value)
+FLIP = {'deprecated-defaults-option-flip': ('enforce_new_defaults', True)}
 
 
 def _setup(env, scenario):
@@ -154,6 +159,24 @@ def _setup(env, scenario):
             env.write('policy.d/over.yaml', {'a:x': 'role:d2'})
         return defaults, ['a:x', 'b:y', 'e:w'], edit, \
             ['m', 'd1', 'd2', 'df']
+    if scenario == 'deprecated-defaults-option-flip':
+        # the operator switches enforce_new_defaults on and edits the main
+        # file; 'svc:a' has a changed default that the file does not
+        # override (old policy: new OR old default; new policy: the new
+        # default only) and a file rule combines it with a role that the
+        # edit changes
+        env.write('policy.yaml', {'c:z': 'rule:svc:a and role:foo'})
+        dep = policy.DeprecatedRule('svc:a', 'role:member',
+                                    deprecated_reason='r',
+                                    deprecated_since='s')
+        defaults = [policy.RuleDefault('svc:a', 'role:admin',
+                                       deprecated_rule=dep),
+                    policy.RuleDefault('keep', 'role:k')]
+
+        def edit():
+            env.write('policy.yaml', {'c:z': 'rule:svc:a and role:bar'})
+        return defaults, ['svc:a', 'keep', 'c:z'], edit, \
+            ['admin', 'member', 'foo', 'bar']
     raise ValueError(scenario)
 
 
@@ -211,6 +234,14 @@ def run_schedule(ctx, scenario, family, probe, lo, hi):
         enf = env.enforcer(defaults=defaults, **kw)
         enf.load_rules()
         old = env.enforcer(defaults=defaults, **kw)
+        if scenario in FLIP:
+            opt, val = FLIP[scenario]
+            file_edit = edit
+
+            def edit():
+                enf.conf.set_override(opt, val, group='oslo_policy')
+                file_edit()
+            kw = dict(kw, **{opt: val})
         d_old = bool(old.enforce(probe, {}, creds))
         g_old = _state(old, probes)
         if family != 'decider-first':
@@ -293,7 +324,8 @@ def cubes_schedule(tier, seed):
             ('dir-file-overrides-two', ['c:z']),
             ('dir-edit-removes-override', ['c:z']),
             ('defaults-last-one-overridden', ['svc:delete']),
-            ('dir-edit-no-overwrite', ['a:x'])]
+            ('dir-edit-no-overwrite', ['a:x']),
+            ('deprecated-defaults-option-flip', ['c:z'])]
     if tier != 'quick':
         plan = [('main-edit-with-dir-override', ['a:x', 'b:y', 'c:z', 'e:w']),
                 ('dir-edit', ['a:x', 'b:y', 'e:w']),
@@ -305,7 +337,8 @@ def cubes_schedule(tier, seed):
                 ('dir-file-overrides-two', ['c:z', 'other']),
                 ('dir-edit-removes-override', ['c:z']),
                 ('defaults-last-one-overridden', ['svc:delete', 'svc:list']),
-                ('dir-edit-no-overwrite', ['a:x', 'b:y'])]
+                ('dir-edit-no-overwrite', ['a:x', 'b:y']),
+                ('deprecated-defaults-option-flip', ['c:z', 'svc:a'])]
     fams = ['writer-paused', 'reader-paused', 'decider-first']
     for sc, probes in plan:
         for fam in fams:
